@@ -45,6 +45,8 @@ pub enum CallError {
     Munmap,
     #[error("JMP instruction failed")]
     Jmp,
+    #[error("The called function did not return: {0}")]
+    Interrupted(String),
 }
 
 /// Use general registers or floating point registers.
@@ -297,7 +299,10 @@ impl CallHelper {
         debug!(target: "debugger", "call a function, wait until breakpoint are hit");
         sys::ptrace::cont(ccx.pid, None).map_err(Error::Ptrace)?;
         let res = nix::sys::wait::waitpid(ccx.pid, None).map_err(Error::Waitpid)?;
-        debug_assert!(res == WaitStatus::Stopped(ccx.pid, Signal::SIGTRAP));
+        // anything but the trap behind the `call` means that the function did not return
+        if res != WaitStatus::Stopped(ccx.pid, Signal::SIGTRAP) {
+            return Err(CallError::Interrupted(format!("{res:?}")).into());
+        }
 
         Ok(())
     }
